@@ -6,7 +6,7 @@ import json
 import corr
 import dets
 import gen
-from common import Outcome, rng_for, VERIF
+from common import Outcome, np, rng_for, VERIF
 
 RULE_ADDENDA = ('large warm-ups (2 100-2 600 instances) for every class; a third of the runs fed NumPy scalars (int64/float64/uint8/int8)')
 LEVEL = "proof"
@@ -219,6 +219,18 @@ def run(out: Outcome) -> None:
                 r = check_trace(out, cls, p, ops, const_value=c)
                 if r:
                     runners.append(r)
+    # constant streams of 0/1 error indicators as they come out of a compact array (`(y_pred != y_true).astype(np.uint8)`), LONGER than the range of that type:
+    # 300+ ones are still a constant stream
+    for k_c, cls in enumerate(dets.BINARY_ONLY + dets.UNIT_INTERVAL):
+        for dt in ((np.uint8, np.int8) if thorough else ((np.uint8, np.int8)[(k_c + out.seed) % 2],)):
+            p = gen.rand_params(rng, cls)
+            if cls in dets.UNIT_INTERVAL:
+                p = {**dets.full_params(cls, p), "two_sided_test": bool((k_c + out.seed) % 3)}
+            c = 1 if cls != "STEPD" else rng.choice([0, 1])
+            r = check_trace(out, cls, p, [("u", dt(c))] * rng.randint(300, 420), const_value=c, label=f"{np.dtype(dt).name}:")
+            if r:
+                runners.append(r)
+            out.count("narrow_dtype_constant_streams")
     # arbitrary pre-history, reset(), then a constant stream: nothing seen before the reset may cause an alarm on the constant stream that follows
     for cls in dets.CLASSES:
         if cls == "BOCD":
